@@ -62,6 +62,21 @@ theorem C19_lower_bound {α : Type} (cmp : α → α → Int) (h : CmpLaws cmp) 
     ∧ ((stepModel cmp s (.lower k)).2 = .lower none → ∀ z ∈ abs s, cmp k z > 0) :=
   reach_lower h ops k
 
+/-- **C19 (iteration, every reachable state).**  Walking forwards yields the members in strictly
+    increasing order, walking backwards yields the same sequence reversed, and the size is its
+    length. -/
+theorem C19_iteration {α : Type} (cmp : α → α → Int) (h : CmpLaws cmp) (ops : List (Op α)) :
+    let s := modelFinal cmp ({} : SetSt α) ops
+    (stepModel cmp s .walk).2 = .walk (abs s) ∧ Sorted cmp (abs s)
+    ∧ (stepModel cmp s .back).2 = .back (abs s).reverse
+    ∧ (stepModel cmp s .size).2 = .size (abs s).length := by
+  intro s
+  have hi := reach_inv h ops
+  refine ⟨?_, hi.sorted, ?_, ?_⟩
+  · show Out.walk s.thread = _; rw [hi.thread]; rfl
+  · show Out.back s.thread.reverse = _; rw [hi.thread]; rfl
+  · show Out.size s.count = _; rw [hi.count, hi.thread]; rfl
+
 /-- non-vacuity of the map laws on a concrete reachable state: replacement is visible to the
     next lookup, the removed key is gone -/
 example :
